@@ -2,7 +2,7 @@ from _common import COMMON_NOTE
 
 META = {
  'title': 'Port addresses reach the right device under Spectrum partial decoding',
- 'lean_modules': ['ZxVerif.Props.C07', 'ZxVerif.Props.C07X'],
+ 'lean_modules': ['ZxVerif.Props.C07', 'ZxVerif.Props.C07X', 'ZxVerif.Props.C07Sys'],
  'extract': ['Ports'],
  'modelled_code': ['rustzx-core/src/zx/controller.rs (the device-selection chains of read_io and write_io, floating_bus_value)',
                    'rustzx-core/src/utils/screen.rs (bitmap_line_addr)', 'rustzx-core/src/host/mod.rs (IoExtender contract)'],
